@@ -8,7 +8,7 @@ Modelled branch by branch, in the order of the code:
   * HEAD requests and the status codes 304, 308, 307, 301 return nil before anything else;
   * an empty responses map returns nil unless IncludeResponseStatus is set (since the fix of F-C08-3, commit c48114b);
   * Responses.Status: exact code, then the class key "1XX".."5XX" (for 100..599 only); then Default;
-  * no entry: nil unless IncludeResponseStatus;
+  * no entry: nil unless IncludeResponseStatus; an entry whose `Value` is nil (unresolved reference): error;
   * declared headers except the one named exactly "Content-Type", in sorted name order, first error returned
     (also under MultiError: the option only reaches the schema visitor and never changes the verdict):
       - header described by `content` (no schema): only presence is checked (finding #22, fixed);
@@ -380,6 +380,8 @@ structure MediaType where
 structure Resp where
   headers : List Hdr
   content : List (String × MediaType)
+  /-- `responseRef.Value != nil`; an entry whose reference was never resolved has no definition to check against -/
+  resolved : Bool := true
 
 structure Opts where
   strict : Bool := false       -- IncludeResponseStatus
@@ -402,7 +404,7 @@ structure Input where
   bodyDec : Dec
 
 inductive Err where
-  | statusNotSupported | hdrMissing (n : String) | hdrDecode (n : String) | hdrSchema (n : String)
+  | statusNotSupported | respUnresolved | hdrMissing (n : String) | hdrDecode (n : String) | hdrSchema (n : String)
   | hdrPanic (n : String) | ctUndeclared | bodyRead | bodyDecode | bodySchema
   deriving DecidableEq, Repr
 
@@ -483,7 +485,8 @@ def validateResponse (canon : String → String) (reg : List (String × String))
   else match statusLookup i.responses i.status with
     | none => if o.strict then ⟨some .statusNotSupported, some i.body⟩ else keep
     | some r =>
-      match firstErr (checkHeader canon o.woOff i.hdrs) (checkedHeaders r) with
+      if !r.resolved then ⟨some .respUnresolved, some i.body⟩   -- "response has not been resolved"
+      else match firstErr (checkHeader canon o.woOff i.hdrs) (checkedHeaders r) with
       | some e => ⟨some e, some i.body⟩
       | none => checkBody reg o i r
 
@@ -590,6 +593,7 @@ def Accept (canon : String → String) (reg : List (String × String)) (o : Opts
   match selected i.responses i.status with
   | none => o.strict = false
   | some r =>
+    r.resolved = true ∧   -- an entry without definition cannot vouch for the response
     (∀ h, h ∈ r.headers → h.name ≠ "Content-Type" → HeaderOK canon o.woOff i.hdrs h) ∧
     (o.excludeBody = false → BodyOK reg o i r)
 
@@ -620,6 +624,7 @@ def acceptB (canon : String → String) (reg : List (String × String)) (o : Opt
   match selected i.responses i.status with
   | none => !o.strict
   | some r =>
+    r.resolved &&
     (r.headers.all (fun h => h.name = "Content-Type" || headerOKB canon o.woOff i.hdrs h)) &&
     (o.excludeBody || bodyOKB reg o i r)
 
